@@ -237,8 +237,8 @@ TYPE_SPECS = [
 NAMES = ["customer_id", "name", "x", "dateOfBirth", "f2", "branch", "amount_1", "Zip"]
 
 
-def gen_valid(rnd):
-    fmt = rnd.choice(["delimited", "fixed", "excel", "ods"])
+def gen_valid(rnd, fmt=None):
+    fmt = fmt or rnd.choice(["delimited", "fixed", "excel", "ods"])
     rows = [["D", "Format", fmt]]
     props = [["Header", str(rnd.randint(0, 3))], ["Encoding", rnd.choice(["utf-8", "latin-1", "cp1252"])], ["Allowed characters", rnd.choice(["32...", "32...126, 160..."])]]
     if fmt == "delimited":
@@ -362,6 +362,10 @@ def defects(rnd, rows):
             yield "fixed-length-range", mod(i, 4, "2...9"), i
             yield "fixed-length-open", mod(i, 4, "2..."), i
             yield "fixed-length-zero", mod(i, 4, "0"), i
+            for bad_len in ("", "...5", "...3, 9"):
+                r = list(rows[i]) + [""] * (7 - len(rows[i]))
+                r[2], r[4] = (r[2] or "ab"), bad_len      # an example is there, the length has no lower limit
+                yield "fixed-length-without-lower-limit-and-example", with_row(i, r), i
             yield "fixed-length-exact-then-open-below", mod(i, 4, "3, ...2"), i
             yield "fixed-length-open-below-then-exact", mod(i, 4, "...2, 3"), i
             yield "fixed-length-exact-then-open-above", mod(i, 4, "3, 5..."), i
@@ -406,8 +410,8 @@ def defects(rnd, rows):
 def gen_inputs(tier, rnd):
     yield {"kind": "keywords"}
     n = 8 if tier == "quick" else 60
-    for _ in range(n):
-        rows = gen_valid(rnd)
+    for k in range(n):
+        rows = gen_valid(rnd, fmt=["delimited", "fixed", "excel", "ods"][k % 4])     # every format in every run
         yield {"kind": "base", "rows": rows}
         # the same CID with one more field and one more check of plugin types created at this moment: a known type is
         # whatever class exists when the CID is read
